@@ -152,6 +152,12 @@ def run(ck, facts):
                 for a in n["arms"]:
                     if {"Slice", "Str", "Utf8"} <= set(names(a["pat"])) and any(x.get("k") == "mcall" and x.get("m") == "push" for x in C.walk(a["b"])):
                         cond_if = {"k": "if", "c": n["s"], "t": a["b"], "ln": n.get("ln")}
+        if cond_if:
+            # the branch is taken for EVERY such parameter: its condition is the type test alone (no further conjunct such as "no validation emitted yet")
+            c0 = C.strip_keep_macro(cond_if["c"])
+            extra = isinstance(c0, dict) and c0.get("k") == "bin" and c0.get("op") in ("And", "Or")
+            ck.expect(not extra, "R1", "gen_method_info/utf8-condition-is-the-type-test-alone", "", "the UTF-8 validation of a &str parameter is emitted under a further condition besides its type: "
+                      "some &str parameters (e.g. every one after the first) reach Rust unchecked", C.loc(g, cond_if.get("ln")))
         if not cond_if:
             ck.bad("R1", "gen_method_info/utf8-condition", "no branch on Type::Slice(Slice::Str(_, StringEncoding::Utf8)) inside the parameter loop: &str parameters are not validated", C.loc(g))
         else:
@@ -401,6 +407,7 @@ def run(ck, facts):
     import c11
     sub = C.SubCheck(ck, "R6", "", ["R1"], key_re=r"^cpp/")
     c11.run(sub, facts)
+    c11.run(C.SubCheck(ck, "R6", "", ["R3"], key_re=r"Enum::new"), facts)     # ... whose values are rustc's (discriminant inference, C11.R3)
     # a std::function handed to Rust is moved to the heap and released through c_delete (rule of C03.R5 on the C++ Callback conversion)
     import c03
     sub3 = C.SubCheck(ck, "R6", "", ["R5"], key_re=r"Callback|c_delete")
